@@ -248,19 +248,19 @@ def subRminus (s o : SubMan M) : Except String (List α) := do
   let c ← A.rminus s.m o.m
   pure (fitZero (subDof A s) (gather s.fixed c))
 
-/-- `traits::man<SubManifold<M>>::cast` AS THE CODE HAS IT: the arguments `(cast m, cast m0,
-    fixed)` go to a constructor that takes `(m0, m, fixed)` -/
+/-- `traits::man<SubManifold<M>>::cast`: `(cast m0, cast m, fixed)` handed to the
+    `(m0, m, fixed)` constructor -/
 def subCast (s : SubMan M) : Except String (SubMan M) := do
-  let cm ← A.cast s.m
-  let cm0 ← A.cast s.m0
-  pure (SubMan.ctor cm cm0 s.fixed)
-
-/-- what the cast is documented to be (origin stays origin) — used by the check to recognise a
-    repaired implementation, never by the model of the pinned code -/
-def subCastIntended (s : SubMan M) : Except String (SubMan M) := do
   let cm0 ← A.cast s.m0
   let cm ← A.cast s.m
   pure (SubMan.ctor cm0 cm s.fixed)
+
+/-- the argument order of the tree before commit 9680871 (origin and value exchanged); kept only
+    as the object of the negative theorem `C07.swapped_cast_is_not_identity` -/
+def subCastSwapped (s : SubMan M) : Except String (SubMan M) := do
+  let cm ← A.cast s.m
+  let cm0 ← A.cast s.m0
+  pure (SubMan.ctor cm cm0 s.fixed)
 
 /-- `Default(dof)` calls a one-argument constructor that does not exist: ill-formed when
     instantiated -/
